@@ -238,13 +238,25 @@ Definition res_code {A} (r : res A) (f : A -> list Z) : list Z :=
 Definition hash_nodes (t : list node) : Z :=
   fold_left (fun h x => (h * 1000003 + x + 1) mod (2 ^ 61 - 1)) (flat_nodes t) 7.
 
-(* input: subnets as (family, value, mask), addresses as (family, value)
+(* input (flat, so that the cases files elaborate quickly): subnets as family, value, mask, ...;
+   addresses as family, value, ...
    output: one of 0/1 (or -2/-3 codes) per address, then -1, and length and hash of the
    IPv4 and of the IPv6 node array *)
-Definition run_filter (inp : list (Z * Z * Z) * list (Z * Z)) : list Z :=
-  let subnets := map (fun t => match t with (f, v, m) => mk_subnet (addr_of f v) m end) (fst inp) in
-  res_code (filter_new subnets) (fun flt =>
-    flat_map (fun fa => res_code (is_in flt (addr_of (fst fa) (snd fa))) (fun b => [if b : bool then 1 else 0])) (snd inp)
+Fixpoint subnets_of (l : list Z) : list subnet :=
+  match l with
+  | f :: v :: m :: r => mk_subnet (addr_of f v) m :: subnets_of r
+  | _ => []
+  end.
+Fixpoint addrs_of (l : list Z) : list ipaddr :=
+  match l with
+  | f :: v :: r => addr_of f v :: addrs_of r
+  | _ => []
+  end.
+Definition mk_case (s a : list Z) : list Z * list Z := (s, a).
+
+Definition run_filter (inp : list Z * list Z) : list Z :=
+  res_code (filter_new (subnets_of (fst inp))) (fun flt =>
+    flat_map (fun a => res_code (is_in flt a) (fun b => [if b : bool then 1 else 0])) (addrs_of (snd inp))
     ++ [-1; Z.of_nat (length (f4 flt)); hash_nodes (f4 flt); Z.of_nat (length (f6 flt)); hash_nodes (f6 flt)]).
 
 (* input: split ok, addr oracle (family 0 = parse error), mask oracle (-1 = parse error)
